@@ -595,3 +595,26 @@ pub fn chen(a: u8, b: u8) -> i32 {
     // round half up: floor((hp + 1) / 2) with floor division for negatives
     (hp + 1).div_euclid(2)
 }
+
+/// Field-structured neighbours of a card word: every combination of a replaced suit nibble (all 16 values),
+/// rank nibble, low byte (prime + the two unused bits), multiples flags and rank-bit half. Code that reads the
+/// word field by field goes wrong on words that differ from a card in *several* fields at once, which bit-flip
+/// neighbourhoods of radius 1-2 and uniformly random words both miss.
+pub fn field_variants(base: u32) -> Vec<u32> {
+    let r = (base >> 8) & 0xF;
+    let p = base & 0xFF;
+    let hi = base >> 16;
+    let mut out = Vec::with_capacity(3456);
+    for s in 0..16u32 {
+        for rn in [r, r ^ 1, 0, 15] {
+            for low in [p, p ^ 1, p ^ 0x40, p ^ 0x80, 0, 0xFF] {
+                for flags in [0u32, 1, 4] {
+                    for h in [hi, hi ^ 1, hi ^ (1 << 12)] {
+                        out.push(((h | (flags << 13)) << 16) | (s << 12) | (rn << 8) | low);
+                    }
+                }
+            }
+        }
+    }
+    out
+}
